@@ -91,7 +91,7 @@ static void child(const std::string& line, const char* outpath) {
         one(out, keys, L, stable, mwmsa, threads, OS[rnd(3)], rnd(4), front, x, rnd(3) == 0 ? vsched::RUNFIRST : vsched::RANDOM);
     }
     out.flush();
-    _exit(0);
+    { vf::cov_flush(); _exit(0); }
 }
 
 int main(int argc, char** argv) {
